@@ -97,7 +97,10 @@ def cast(te, target):
     if te.lit_elems is not None:
         if not is_arr(target):
             if target == BOOL:
-                return TE(('lit', BOOL, int(bool(te.lit_elems))), BOOL)
+                if te.t[1] == EMPTY:
+                    return TE(('lit', BOOL, 0), BOOL)
+                # the elements are still evaluated (they may have effects); only the length decides
+                return TE(('cast', BOOL, 'len2bool', coerce(te, te.t).e), BOOL)
             raise Reject(f'array literal is not {ptype(target)}')
         elems = [cast(x, target[1]) for x in te.lit_elems]
         for x in elems:
